@@ -30,18 +30,14 @@ hc!(c02_q_c2_leaf, sk_leaf_tab(&S6_TAB), p_cat::<C2>(true, false));
 hc!(c02_q_e1_tag1, sk_enum(&E1_TAB, true, 0, &[1, 2, 3, 7], 1, &[4, 5, 6]), p_cat::<E1>(true, true));
 hc!(c02_q_e1_notag, sk_enum(&E1_TAB, false, 0, &[1], 1, &[4, 5, 1]), p_cat::<E1>(false, false));
 hc!(c02_t_e1_tag2, sk_enum(&E1_TAB, true, 0, &[1, 2, 3, 7], 2, &[4, 5, 6, 0]), p_cat::<E1>(true, true));
-hc!(c02_t_e1_m2, sk_obj(&E1_TAB, 2, 8), p_cat::<E1>(true, true));
 hc!(c02_q_e2_tag1, sk_enum(&E2_TAB, true, 0, &[1, 2, 6], 1, &[3, 4, 5]), p_cat::<E2>(true, true));
 hc!(c02_t_e2_tag2, sk_enum(&E2_TAB, true, 0, &[1, 2, 6], 2, &[3, 4, 5]), p_cat::<E2>(true, true));
-hc!(c02_t_e2_m2, sk_obj(&E2_TAB, 2, 7), p_cat::<E2>(true, true));
 hc!(c02_q_e3_leaf, sk_leaf_tab(&E3_TAB), p_cat::<E3>(true, false));
 hc!(c02_t_s1_m3, sk_obj(&S1_TAB, 3, 7), p_cat::<S1>(true, true));
 hc!(c02_t_s2_m3, sk_obj(&S2_TAB, 3, 6), p_cat::<S2>(true, true));
 hc!(c02_t_s3_m3, sk_obj(&S3_TAB, 3, 5), p_cat::<S3>(true, true));
 hc!(c02_t_s4_m3, sk_obj(&S4_TAB, 3, 5), p_cat::<S4>(true, true));
 hc!(c02_t_s5_m3, sk_obj(&S5_TAB, 3, 4), p_cat::<S5>(true, true));
-hc!(c02_t_e1_m3, sk_obj(&E1_TAB, 3, 8), p_cat::<E1>(true, true));
-hc!(c02_t_e2_m3, sk_obj(&E2_TAB, 3, 7), p_cat::<E2>(true, true));
 hc!(c02_t_s1_m1, sk_obj(&S1_TAB, 1, 7), p_cat::<S1>(false, true));
 hc!(c02_t_s1_leaf, sk_leaf_tab(&S1_TAB), p_cat::<S1>(false, false));
 hc!(c02_t_e1_leaf, sk_leaf_tab(&E1_TAB), p_cat::<E1>(false, false));
@@ -52,55 +48,44 @@ hc!(c01_t_s3_m2, sk_obj(&S3_TAB, 2, 5), p_c01::<S3>(false));
 hc!(c01_t_s4_m2, sk_obj(&S4_TAB, 2, 5), p_c01::<S4>(true));
 hc!(c01_t_s5_m2, sk_obj(&S5_TAB, 2, 4), p_c01::<S5>(false));
 hc!(c01_q_e1_tag1, sk_enum(&E1_TAB, true, 0, &[1, 2, 3, 7], 1, &[4, 5, 6]), p_c01::<E1>(true));
-hc!(c01_t_e1_m2, sk_obj(&E1_TAB, 2, 8), p_c01::<E1>(true));
 hc!(c01_t_s2_m3, sk_obj(&S2_TAB, 3, 6), p_c01::<S2>(true));
 hc!(c01_t_s3_m3, sk_obj(&S3_TAB, 3, 5), p_c01::<S3>(true));
 hc!(c01_t_s4_m3, sk_obj(&S4_TAB, 3, 5), p_c01::<S4>(true));
 hc!(c01_t_s5_m3, sk_obj(&S5_TAB, 3, 4), p_c01::<S5>(true));
 hc!(c01_t_s6_m2, sk_obj(&S6_TAB, 2, 3), p_c01::<S6>(true));
 hc!(c01_t_c1_leaf, sk_leaf_tab(&S6_TAB), p_c01::<C1>(true));
-hc!(c01_t_e2_m3, sk_obj(&E2_TAB, 3, 7), p_c01::<E2>(true));
 hc!(c01_t_e3_leaf, sk_leaf_tab(&E3_TAB), p_c01::<E3>(true));
 
 // ---- C03
 hc!(c03_t_s1_m2, sk_obj(&S1_TAB, 2, 7), p_c03::<S1>(true));
 hc!(c03_t_s3_m2, sk_obj(&S3_TAB, 2, 5), p_c03::<S3>(true));
 hc!(c03_q_e1_tag1, sk_enum(&E1_TAB, true, 0, &[1, 2, 3, 7], 1, &[4, 5, 6]), p_c03::<E1>(true));
-hc!(c03_t_e1_m2, sk_obj(&E1_TAB, 2, 8), p_c03::<E1>(true));
 hc!(c03_t_s4_m3, sk_obj(&S4_TAB, 3, 5), p_c03::<S4>(true));
 hc!(c03_t_s5_m2, sk_obj(&S5_TAB, 2, 4), p_c03::<S5>(true));
 hc!(c03_t_s6_m2, sk_obj(&S6_TAB, 2, 3), p_c03::<S6>(true));
-hc!(c03_t_e2_m3, sk_obj(&E2_TAB, 3, 7), p_c03::<E2>(true));
 
 // ---- C04
 hc!(c04_t_s1_m2, sk_obj(&S1_TAB, 2, 7), p_c04::<S1>(true));
 hc!(c04_q_e1_tag1, sk_enum(&E1_TAB, true, 0, &[1, 2, 3, 7], 1, &[4, 5, 6]), p_c04::<E1>(true));
-hc!(c04_t_e1_m2, sk_obj(&E1_TAB, 2, 8), p_c04::<E1>(true));
 hc!(c04_t_s4_m2, sk_obj(&S4_TAB, 2, 5), p_c04::<S4>(true));
 hc!(c04_t_s3_m2, sk_obj(&S3_TAB, 2, 5), p_c04::<S3>(true));
 hc!(c04_t_s5_m2, sk_obj(&S5_TAB, 2, 4), p_c04::<S5>(true));
 hc!(c04_t_s6_m2, sk_obj(&S6_TAB, 2, 3), p_c04::<S6>(true));
-hc!(c04_t_e2_m3, sk_obj(&E2_TAB, 3, 7), p_c04::<E2>(true));
 hc!(c04_t_e3_leaf, sk_leaf_tab(&E3_TAB), p_c04::<E3>(false));
 
 // ---- C15: member order
 hc!(c15_t_s1_m2, sk_obj(&S1_TAB, 2, 7), p_c15::<S1>(2));
-hc!(c15_t_e1_tag1, sk_enum(&E1_TAB, true, 0, &[1, 2, 3, 7], 1, &[4, 5, 6]), p_c15::<E1>(2));
-hc!(c15_t_e1_m2, sk_obj(&E1_TAB, 2, 8), p_c15::<E1>(2));
+hc!(c15_t_e1_taglast2_model, sk_enum_last(&E1_TAB, 0, &[1, 2, 3, 7], 2, &[4, 5, 6]), p_cat::<E1>(true, true));
 hc!(c15_t_s3_m2, sk_obj(&S3_TAB, 2, 5), p_c15::<S3>(2));
 hc!(c15_t_s1_m3, sk_obj(&S1_TAB, 3, 7), p_c15::<S1>(3));
 hc!(c15_t_s2_m3, sk_obj(&S2_TAB, 3, 6), p_c15::<S2>(3));
 hc!(c15_t_s4_m3, sk_obj(&S4_TAB, 3, 5), p_c15::<S4>(3));
-hc!(c15_t_e1_m3, sk_obj(&E1_TAB, 3, 8), p_c15::<E1>(3));
-hc!(c15_t_e2_m3, sk_obj(&E2_TAB, 3, 7), p_c15::<E2>(3));
+hc!(c15_t_e2_taglast2_model, sk_enum_last(&E2_TAB, 0, &[1, 2, 6], 2, &[3, 4, 5]), p_cat::<E2>(true, true));
 
 // ---- C12: adversarial shapes (duplicate keys incl. the tag twice), free script
 hc!(c12_q_s1_dup_m2, sk_obj_dup(&S1_TAB, 2, 7), p_c01::<S1>(true));
-hc!(c12_t_e1_dup_m3, sk_obj_dup(&E1_TAB, 3, 8), p_c01::<E1>(true));
-hc!(c12_t_e1_dup_m2, sk_obj_dup(&E1_TAB, 2, 8), p_c01::<E1>(true));
 hc!(c12_t_s4_dup_m3, sk_obj_dup(&S4_TAB, 3, 5), p_c01::<S4>(true));
 hc!(c12_t_s2_dup_m3, sk_obj_dup(&S2_TAB, 3, 6), p_c01::<S2>(true));
-hc!(c12_t_e2_dup_m3, sk_obj_dup(&E2_TAB, 3, 7), p_c01::<E2>(true));
 hc!(c12_t_s3_empty, sk_obj(&S3_TAB, 0, 5), p_c01::<S3>(false));
 
 // ---- one-member skeletons (quick tier): every key of the table x every leaf, the other
@@ -123,8 +108,19 @@ hc!(c04_q_s3_m1, sk_obj(&S3_TAB, 1, 5), p_c04::<S3>(true));
 hc!(c04_q_s4_m1, sk_obj(&S4_TAB, 1, 5), p_c04::<S4>(true));
 hc!(c15_t_s2_m2, sk_obj(&S2_TAB, 2, 6), p_c15::<S2>(2));
 hc!(c15_q_s6_m2, sk_obj(&S6_TAB, 2, 3), p_c15::<S6>(2));
-hc!(c15_q_e0_m2, sk_obj(&E0_TAB, 2, 4), p_c15::<E0>(2));
-hc!(c15_t_e0_m3, sk_obj(&E0_TAB, 3, 4), p_c15::<E0>(3));
-hc!(c02_q_e0_m2, sk_obj(&E0_TAB, 2, 4), p_cat::<E0>(true, true));
-hc!(c01_q_e0_m2, sk_obj(&E0_TAB, 2, 4), p_c01::<E0>(true));
-hc!(c12_q_e0_dup_m2, sk_obj_dup(&E0_TAB, 2, 4), p_c01::<E0>(true));
+hc!(c15_q_e0_taglast_model, sk_enum_last(&E0_TAB, 0, &[1, 2, 3], 1, &[3, 1]), p_cat::<E0>(true, false));
+hc!(c15_q_e0_tag1_rev, sk_enum(&E0_TAB, true, 0, &[1, 2, 3], 1, &[3, 1]), p_c15::<E0>(0));
+hc!(c15_q_e1_taglast_model, sk_enum_last(&E1_TAB, 0, &[1, 2, 3, 7], 1, &[4, 5, 6]), p_cat::<E1>(true, true));
+hc!(c02_q_e0_tag1, sk_enum(&E0_TAB, true, 0, &[1, 2, 3], 1, &[3, 1]), p_cat::<E0>(true, true));
+hc!(c12_q_e0_tagtwice, sk_enum(&E0_TAB, true, 0, &[1, 2, 3], 1, &[0, 3]), p_c01::<E0>(true));
+
+// ---- tagged enums, thorough: tag first / last with two further members (a symbolic tag
+//      position - sk_obj over an enum table - does not finish within 40 min: outside the bound)
+hc!(c01_t_e1_tag2, sk_enum(&E1_TAB, true, 0, &[1, 2, 3, 7], 2, &[4, 5, 6]), p_c01::<E1>(true));
+hc!(c01_t_e2_tag2, sk_enum(&E2_TAB, true, 0, &[1, 2, 6], 2, &[3, 4, 5]), p_c01::<E2>(true));
+hc!(c02_t_e1_taglast2, sk_enum_last(&E1_TAB, 0, &[1, 2, 3, 7], 2, &[4, 5, 6]), p_cat::<E1>(true, true));
+hc!(c03_t_e2_tag1, sk_enum(&E2_TAB, true, 0, &[1, 2, 6], 1, &[3, 4, 5]), p_c03::<E2>(true));
+hc!(c04_t_e1_tag2, sk_enum(&E1_TAB, true, 0, &[1, 2, 3, 7], 2, &[4, 5, 6]), p_c04::<E1>(true));
+hc!(c04_t_e2_tag2, sk_enum(&E2_TAB, true, 0, &[1, 2, 6], 2, &[3, 4, 5]), p_c04::<E2>(true));
+hc!(c12_t_e1_tagtwice2, sk_enum(&E1_TAB, true, 0, &[1, 2, 3, 7], 2, &[0, 4, 5]), p_c01::<E1>(true));
+hc!(c12_t_e1_notag, sk_enum(&E1_TAB, false, 0, &[1], 2, &[4, 5, 1]), p_c01::<E1>(false));
